@@ -22,6 +22,35 @@ CLAIMED = {
             "subsets/orders/option variants) and a matcher table regenerated from the source.",
             TB + "glibc string functions are tied to the modelled loops by exhaustive test, not proof; cJSON's parser is outside the model.",
             "Lean 4 proof over executable model + differential correspondence with the compiled C", "DESIGN.md §6 C16, docs/C16.md"),
+    "C10": ("proof",
+            "Lean theorems (stream_integrity, torn_frame_is_last, order_preserved, no_dup, accepted_frame_is_whole, refusal_is_clean, "
+            "dead_is_final, nothing_after_dead, fill_le_cap, copy_in_bounds, send_buffer_terminates, ...) over a transcription of "
+            "buffered_socket.c's write side, for every capacity, frame sequence, kernel answer script and interleaving with writability "
+            "events; tied to the real buffered_socket.c + posix/socket.c behind a scripted writev: exhaustive product for a small buffer "
+            "(fill level x frame shapes x partial-write position x flush follow-ups) and seeded histories at the real size; an independent "
+            "monitor evaluates the property on the implementation's byte stream.",
+            TB + "The kernel contract (a successful write of n>0 requested bytes returns 1..n) is a stated hypothesis of the termination theorems.",
+            "Lean 4 proof over executable model + differential correspondence with the compiled C", "DESIGN.md §6 C10, docs/C10.md"),
+    "C18": ("proof",
+            "Lean theorems (byte_checker_eq_spec, text_checker_eq_spec, byte_checker_incomplete_eq_prefix, split_irrelevant, "
+            "chunks_irrelevant, word_path_eq_byte_path, word64_path_eq_byte_path, auto_aligned_eq, ...) relating a branch-for-branch model "
+            "of utf8_checker.c to an RFC 3629 grammar spec for all byte strings, all split points, all words and all alignments; tie: "
+            "exhaustive transition table (78 reachable states x 256 bytes) of the real code vs model vs a python RFC automaton, class "
+            "products / all 2^32 words (thorough) for the fast paths, masks regenerated from the source.",
+            TB + "sizeof(uint_fast16_t) and the buffer address are parameters of the auto-aligned model.",
+            "Lean 4 proof over executable model + exhaustive/differential correspondence with the compiled C", "DESIGN.md §6 C18, docs/C18.md"),
+    "C20": ("proof",
+            "Lean theorems over a model of auth_file.c's change_password decision and write_user_data call sequence on a file-system "
+            "model with short writes, errors and crash points: change_authorised, refusal_order, new_authenticates_old_does_not, "
+            "other_users_untouched, step_changes_authorised, short_writes_complete, window_holds_prefix_of_new; crash atomicity is FALSE "
+            "for the code as it is (truncate-then-write): update_counterexample (decide) + update_crash_atomic_partial outside the window; "
+            "that defect (F24) is an open known finding printed on every run. Tie: real auth_file.c with eleven wrapped libc calls, file "
+            "snapshot after every call judged by a fresh load_passwd_data; exhaustive caller/target matrix, every crash point and short "
+            "write of each update.",
+            TB + "crypt is a parameter (verifies its own output; distinct passwords give distinct hashes under one setting); power-loss "
+            "(unsynced page) semantics are not simulated. F24 (truncate window) is listed in known_findings.json as open.",
+            "Lean 4 proof (+ machine-checked counterexample for the open finding) + differential correspondence with the compiled C",
+            "DESIGN.md §6 C20, docs/C20.md"),
 }
 
 NOT_YET = "machinery under construction in this round; not yet claimed"
